@@ -170,20 +170,26 @@ func (c *replacerCompiler) compileFile(file *pgo.File) FileReplacer {
 
 // Replace replaces a file using the provided Match data.
 func (r FileReplacer) Replace(d data.Data, cl Changelog) (*ast.File, error) {
+	file, _, err := r.replace(d, cl)
+	return file, err
+}
+
+// replace replaces a file using the provided Match data. It reports whether
+// the file was modified: it was not if the replacement fits in none of the
+// places that matched.
+func (r FileReplacer) replace(d data.Data, cl Changelog) (_ *ast.File, modified bool, _ error) {
 	var fd fileMatchData
 	if !data.Lookup(d, fileMatchKey, &fd) {
-		return nil, errors.New("no file match data found")
+		return nil, false, errors.New("no file match data found")
 	}
 
 	file := fd.File
-	if r.Package != "" {
-		file.Name.Name = r.Package
-	}
 
 	// Matches were collected in pre-order. Replace them in reverse so that
 	// a match nested inside a node that another match reproduces (for
 	// example, a block among the statements skipped by a "...") is
 	// rewritten before the outer match copies it.
+	rewritten := 0
 	for i := len(fd.Matches) - 1; i >= 0; i-- {
 		m := fd.Matches[i]
 		v := reflect.Indirect(reflect.ValueOf(m.parent)).FieldByName(m.name)
@@ -196,9 +202,11 @@ func (r FileReplacer) Replace(d data.Data, cl Changelog) (*ast.File, error) {
 			v = v.Index(m.index)
 		}
 
-		give, err := r.NodeReplacer.Replace(m.data, cl, m.region.Pos)
+		// What this match changes counts only if the match is rewritten.
+		mcl := NewChangelog()
+		give, err := r.NodeReplacer.Replace(m.data, mcl, m.region.Pos)
 		if err != nil {
-			return nil, err
+			return nil, false, err
 		}
 
 		// If the generated value isn't assignable to the target, the match
@@ -208,11 +216,23 @@ func (r FileReplacer) Replace(d data.Data, cl Changelog) (*ast.File, error) {
 		if give.Type().AssignableTo(v.Type()) {
 			if n, ok := give.Interface().(ast.Node); ok {
 				if err := checkPositions(n); err != nil {
-					return nil, err
+					return nil, false, err
 				}
 			}
 			v.Set(give)
+			cl.merge(mcl)
+			rewritten++
 		}
+	}
+
+	// If every match was too eager, the change does not apply to this file
+	// after all: leave its package clause and its imports alone, too.
+	if len(fd.Matches) > 0 && rewritten == 0 {
+		return file, false, nil
+	}
+
+	if r.Package != "" {
+		file.Name.Name = r.Package
 	}
 
 	// Imports are added only now: a new import declaration shifts
@@ -220,13 +240,13 @@ func (r FileReplacer) Replace(d data.Data, cl Changelog) (*ast.File, error) {
 	// index in it.
 	newImports, err := r.Imports.Replace(d, cl, file)
 	if err != nil {
-		return nil, err
+		return nil, false, err
 	}
 
 	parenthesize(file)
 
 	err = r.Imports.Cleanup(d, file, newImports)
-	return file, err
+	return file, true, err
 }
 
 // checkPositions reports an error if the position of a node below n cannot
